@@ -607,6 +607,29 @@ pub fn run_builder_scenario(v: &Value, idx: usize, out: &mut dyn Write) -> usize
 }
 
 /// Sessions tagged `bwire` are followed by a parse of what they built.
+/// The value of a PP2_TYPE_SSL TLV as HAProxy emits it: client flags, a 4-byte verify result and
+/// nested sub-TLVs (version, CN, cipher, signature algorithm, key algorithm) - every flag value,
+/// with and without each sub-TLV, also nested areas that are cut short.
+pub fn ssl_value(i: usize) -> Vec<u8> {
+    let client = (i % 8) as u8;
+    let mut v = vec![client, 0, 0, 0, (i / 8 % 2) as u8];
+    let subs: [(u8, &[u8]); 5] = [(0x21, b"TLSv1.3"), (0x22, b"example.org"), (0x23, b"TLS_AES_256_GCM_SHA384"), (0x24, b"RSA-SHA256"), (0x25, b"RSA2048")];
+    let mask = (i / 16) % 32;
+    for (k, (t, val)) in subs.iter().enumerate() {
+        if mask & (1 << k) != 0 || (i / 16) % 7 == 0 {
+            v.push(*t);
+            v.extend_from_slice(&(val.len() as u16).to_be_bytes());
+            v.extend_from_slice(val);
+        }
+    }
+    match (i / 512) % 4 {
+        1 => { v.pop(); }
+        2 => v.extend_from_slice(&[0x21, 0, 9, b'x']),
+        _ => {}
+    }
+    v
+}
+
 /// TLV lists with structure: neighbouring registered types, repeated types, NoOp padding between
 /// items, many tiny items, empty values, a list that fills the payload exactly.
 pub fn structured_tlv_list(i: usize, budget: usize, rng: &mut Rng) -> Vec<(u8, Vec<u8>)> {
@@ -618,7 +641,7 @@ pub fn structured_tlv_list(i: usize, budget: usize, rng: &mut Rng) -> Vec<(u8, V
         2 => { for k in 0..5 { list.push((reg[(i / 8 + k) % 12], vec![0xA0 + k as u8; 1 + k])); list.push((0x04, vec![0; k])); } }
         3 => { let n = *rng.pick(&[40usize, 120, 300]); for k in 0..n { list.push(((k % 251) as u8, vec![])); } }
         4 => { let n = *rng.pick(&[30usize, 100, 250]); for k in 0..n { list.push((reg[k % 12], vec![k as u8])); } }
-        5 => { list.push((0x04, vec![])); list.push((0x04, vec![])); list.push((0x20, vec![0x21, 0, 0, 0, 0, 0x21, 0, 3, b'T', b'L', b'S'])); list.push((0x04, vec![0; 3])); }
+        5 => { list.push((0x04, vec![])); list.push((0x20, ssl_value(i / 8))); list.push((0x04, vec![0; 3])); list.push((0x20, ssl_value(i / 8 + 5))); }
         6 if (i / 8) % 3 == 1 => {
             // fills the budget exactly; the LAST item(s) have an empty value
             let empties = 1 + (i / 24) % 2;
